@@ -42,6 +42,18 @@ CLAIMS['C13'] = ('proof',
     'Trusted: the OS model (POSIX rename atomicity, mkstemp uniqueness, OSError without effect); compat.encode/decode '
     'inlined; concurrent writers of the same module are not decided (no concurrency in the engine); the forwarding of '
     'dryRun/writeMibs by compile() is proved under C07/C09.', '5 C13')
+CLAIMS['C10'] = ('proof',
+    'The three searchers carry exact contracts over a ghost file system (fresh-iff-not-modified incl. the >= boundary, '
+    'rebuild overrides age but not stub lists, observers only); compile() is proved to forward rebuild to every '
+    'fileExists call, to report untouched modules as neither generated nor written, and to delete fresh modules from '
+    'the work set.', COMPILE_NOTE + ' Byte-code header layout (bytes 4-8 hold the time stamp) is as the code reads it; '
+    'PyPackageSearcher is not under contract (imports packages). Searcher order and the noDeps filter are decided by the '
+    'loop structure and invariants of compile(); known finding D18 (stale .pyc masks a fresh .py).', '5 C10')
+CLAIMS['C19'] = ('proof',
+    'AbstractBorrower.getData is verified for all option shapes (flavour mismatch -> not-found without touching the '
+    'reader, extensions and flavour forwarded, payload handed on verbatim); compile() is proved to consult borrowers '
+    'only for names without generated code, to forward genTexts, to write the borrowed payload verbatim and to keep a '
+    'compiled module from being replaced.', COMPILE_NOTE, '5 C19')
 NOT_YET = {
 }
 
